@@ -45,11 +45,20 @@ Proof.
   cbn [firstn app]. f_equal. apply IH. exact H.
 Qed.
 
+(* the turns of a run, with the replies the host gives while the program waits at an INPUT *)
+Inductive ReachI (fi : nat) (s0 : interp) : interp -> Prop :=
+| reachI_refl : ReachI fi s0 s0
+| reachI_step s1 s2 : ReachI fi s0 s1 -> state s1 = Running -> continue_evaluating fi s1 = (Ok tt, s2) -> ReachI fi s0 s2
+| reachI_reply s1 s2 text : ReachI fi s0 s1 -> provide_input text s1 = (Ok tt, s2) -> ReachI fi s0 s2.
+
+Lemma ReachI_of_Reach fi s0 s : Reach fi s0 s -> ReachI fi s0 s.
+Proof. intros H. induction H as [|s1 s2 _ IH Hst E]; [apply reachI_refl | exact (reachI_step fi s0 s1 s2 IH Hst E)]. Qed.
+
 Section ProgE.
   Variable fa : nat.
   Variable ptoks : list (N * list token).
   Variable pkeys : list N.
-  Hypothesis Hclean : forall n ts, toks_get n ptoks = Some ts -> clean2_line ts = true.
+  Hypothesis Hclean : forall n ts, toks_get n ptoks = Some ts -> nodef_line ts = true.
   Hypothesis G : forall n, toks_get n ptoks <> None -> AccAt fa ptoks pkeys (mkloc (Some n) 0).
   Hypothesis Hkeys : forall n, In n pkeys -> toks_get n ptoks <> None.
 
@@ -65,12 +74,12 @@ Section ProgE.
   Lemma cur_line_onprog s : onprog s -> cur_line s = toks_at (loc s).
   Proof. intros (O1 & _ & O3). unfold cur_line, toks_at. rewrite O1, O3. reflexivity. Qed.
 
-  Lemma clean2_at s i t : onprog s -> nth_error (cur_line s) i = Some t -> clean2_tok t = true.
+  Lemma clean2_at s i t : onprog s -> nth_error (cur_line s) i = Some t -> nodef_tok t = true.
   Proof.
     intros Hon Hn. rewrite (cur_line_onprog s Hon) in Hn. unfold toks_at in Hn.
     destruct (loc_line (loc s)) as [n|]; [|destruct i; discriminate].
     destruct (toks_get n ptoks) as [ts|] eqn:E; [|destruct i; discriminate].
-    pose proof (Hclean n ts E) as Hc. unfold clean2_line in Hc. rewrite forallb_forall in Hc.
+    pose proof (Hclean n ts E) as Hc. unfold nodef_line in Hc. rewrite forallb_forall in Hc.
     apply Hc. eapply nth_error_In; eassumption.
   Qed.
 
@@ -80,10 +89,6 @@ Section ProgE.
   Definition ElseOK (l : location) : Prop :=
     (exists n, loc_line l = Some n /\ toks_get n ptoks <> None)
     /\ nth_error (toks_at l) (loc_idx l) = Some TElse /\ ThenB l.
-  Definition Land (l : location) : Prop := AccAt l \/ ElseOK l.
-
-  Definition FramesL (s : interp) : Prop :=
-    Forall (fun fr => Land (fr_ret fr)) (stack s) /\ Forall (fun lp => Land (lp_loc lp)) (loops s).
 
   (* the end of a clause *)
   Inductive After : location -> Prop :=
@@ -93,6 +98,18 @@ Section ProgE.
       onprog sa -> functions sa = [] -> loc sa = mkloc (loc_line l) (S (loc_idx l)) ->
       an_statement_or_goto (analyze_statement f n) (sa, acc) = (Ok tt, (sa', acc')) ->
       After (loc sa') -> After l.
+
+  (* an INPUT that stands as the clause of an IF: the statement the checker accepted
+     there (at whatever nesting), re-executed as a statement of its own when the reply comes *)
+  Definition InputOK (l : location) : Prop :=
+    nth_error (toks_at l) (loc_idx l) = Some TInput /\ ThenB l /\
+    exists sa acc f n sa' acc', onprog sa /\ functions sa = [] /\ loc sa = l
+      /\ analyze_statement f n (sa, acc) = (Ok tt, (sa', acc')) /\ After (loc sa') /\ ThenB (loc sa').
+
+  Definition Land (l : location) : Prop := AccAt l \/ ElseOK l \/ InputOK l.
+
+  Definition FramesL (s : interp) : Prop :=
+    Forall (fun fr => Land (fr_ret fr)) (stack s) /\ Forall (fun lp => Land (lp_loc lp)) (loops s).
 
   (* ThenB moves forward over tokens that are not ":" *)
   Lemma ThenB_forward l l' :
@@ -116,9 +133,21 @@ Section ProgE.
   (* execution with the checker alongside *)
   Definition TBs (s : interp) : Prop := ThenB (loc s).
 
-  Definition tsoundE (n1 : nat) (m : M unit) (a : MA unit) : Prop :=
-    forall s sa acc sa' acc', R s sa -> onprog s -> FramesL s -> (n1 <> 0 -> TBs s) ->
-      a (sa, acc) = (Ok tt, (sa', acc')) -> After (loc sa') -> (n1 = 0 -> AccAt (loc sa')) ->
+  Definition tsoundE (top : bool) (m : M unit) (a : MA unit) : Prop :=
+    forall s sa acc sa' acc', R s sa -> onprog s -> FramesL s -> (top = false -> TBs s) ->
+      a (sa, acc) = (Ok tt, (sa', acc')) -> After (loc sa') -> (top = true -> AccAt (loc sa')) ->
+      match m s with
+      | (Ok _, s') => functions s' = [] /\ FramesL s' /\ (C s' sa' \/ Land (loc s'))
+      | (Err e _, _) => benign e
+      | _ => True
+      end.
+
+  (* at statement level: an INPUT re-executes itself when the reply arrives, so the place
+     where the statement starts has to be one where execution may stand *)
+  Definition tsoundES (top : bool) (m : M unit) (a : MA unit) : Prop :=
+    forall s sa acc sa' acc', R s sa -> onprog s -> FramesL s -> (top = false -> TBs s) ->
+      (nth_error (cur_line s) (loc_idx (loc s)) = Some TInput -> Land (loc s)) ->
+      a (sa, acc) = (Ok tt, (sa', acc')) -> After (loc sa') -> (top = true -> AccAt (loc sa')) ->
       match m s with
       | (Ok _, s') => functions s' = [] /\ FramesL s' /\ (C s' sa' \/ Land (loc s'))
       | (Err e _, _) => benign e
@@ -132,16 +161,16 @@ Section ProgE.
   Lemma land_of_after l : After l -> ThenB l -> Land l.
   Proof.
     intros Ha Hb. destruct Ha as [l Hacc | l sa acc f n sa' acc' Ht _ _ _ _ _]; [left; exact Hacc|].
-    right. split; [|split; [exact Ht | exact Hb]].
+    right. left. split; [|split; [exact Ht | exact Hb]].
     unfold toks_at in Ht. destruct (loc_line l) as [k|]; [|destruct (loc_idx l); discriminate Ht].
     exists k. split; [reflexivity|]. destruct (toks_get k ptoks); [discriminate | destruct (loc_idx l); discriminate Ht].
   Qed.
 
-  Lemma land_here n1 s sa : R s sa -> After (loc sa) -> (n1 = 0 -> AccAt (loc sa)) -> (n1 <> 0 -> TBs s) -> Land (loc s).
+  Lemma land_here (top : bool) s sa : R s sa -> After (loc sa) -> (top = true -> AccAt (loc sa)) -> (top = false -> TBs s) -> Land (loc s).
   Proof.
     intros HR Ha Htop Htb. assert (El : loc s = loc sa) by apply HR.
-    destruct n1 as [|n1]; [left; rewrite El; apply Htop; reflexivity|].
-    rewrite <- El in Ha. apply (land_of_after _ Ha). apply Htb. discriminate.
+    destruct top; [left; rewrite El; apply Htop; reflexivity|].
+    rewrite <- El in Ha. apply (land_of_after _ Ha). apply Htb. reflexivity.
   Qed.
 
   Lemma next_token_bothL s sa acc : R s sa -> onprog s -> FramesL s ->
@@ -169,7 +198,7 @@ Section ProgE.
   Qed.
 
   (* ---- GOTO, GOSUB ---- *)
-  Lemma tsoundE_goto n1 : tsoundE n1 evaluate_goto_statement an_goto_or_gosub.
+  Lemma tsoundE_goto (top : bool) : tsoundE top evaluate_goto_statement an_goto_or_gosub.
   Proof.
     intros s sa acc sa' acc' HR Hon Hfr Htb Ea Haft Htop.
     destruct (an_goto_inv _ _ _ _ Ea) as (x & En & -> & Eh).
@@ -184,7 +213,7 @@ Section ProgE.
     right. left. apply G. exact (store_has_line ptoks pkeys _ _ Hon1 Eh1).
   Qed.
 
-  Lemma tsoundE_gosub n1 : tsoundE n1 evaluate_gosub_statement an_goto_or_gosub.
+  Lemma tsoundE_gosub (top : bool) : tsoundE top evaluate_gosub_statement an_goto_or_gosub.
   Proof.
     intros s sa acc sa' acc' HR Hon Hfr Htb Ea Haft Htop.
     destruct (an_goto_inv _ _ _ _ Ea) as (x & En & -> & Eh).
@@ -204,12 +233,12 @@ Section ProgE.
     destruct Hfr1 as [F1 F2]. split; [|destruct s; exact F2].
     replace (stack (set_stack _ _)) with (stack (advd s) ++ [mkframe (loc (advd s)) []]) by (destruct s; reflexivity).
     apply Forall_app. split; [exact F1|]. constructor; [|constructor]. cbn [fr_ret].
-    apply (land_here n1 (advd s) sa' HR1 Haft Htop).
+    apply (land_here top (advd s) sa' HR1 Haft Htop).
     intros Hn1. apply (TBs_advd s (TNumber x) Et eq_refl Hon (Htb Hn1)).
   Qed.
 
   (* ---- RETURN, END, STOP ---- *)
-  Lemma tsoundE_return n1 : tsoundE n1 return_to_last_gosub (aret tt).
+  Lemma tsoundE_return (top : bool) : tsoundE top return_to_last_gosub (aret tt).
   Proof.
     intros s sa acc sa' acc' HR Hon Hfr Htb Ea Haft Htop.
     unfold return_to_last_gosub. rewrite bind_modify, bind_get.
@@ -226,7 +255,7 @@ Section ProgE.
   Lemma onprog_of_R s sa : R s sa -> onprog s -> onprog sa.
   Proof. intros HR. apply (onprog_of_C ptoks pkeys). apply HR. Qed.
 
-  Lemma tsoundE_end n1 : tsoundE n1 program_end (aret tt).
+  Lemma tsoundE_end (top : bool) : tsoundE top program_end (aret tt).
   Proof.
     intros s sa acc sa' acc' HR Hon Hfr Htb Ea Haft Htop. injection Ea as <- <-.
     unfold program_end. rewrite set_imm_is_modify. unfold modify.
@@ -238,7 +267,7 @@ Section ProgE.
     destruct (breakpoint s); (split; [destruct s; cbn; first [exact F1 | constructor] | destruct s; exact F2]).
   Qed.
 
-  Lemma tsoundE_stop n1 : tsoundE n1 break_at_current_location (aret tt).
+  Lemma tsoundE_stop (top : bool) : tsoundE top break_at_current_location (aret tt).
   Proof.
     intros s sa acc sa' acc' HR Hon Hfr Htb Ea Haft Htop. injection Ea as <- <-.
     unfold break_at_current_location, get_line_number, push_output, program_break_at_current_location.
@@ -263,7 +292,7 @@ Section ProgE.
     rewrite <- (firstn_skipn i (loops s)) in F2. apply Forall_app in F2. apply F2.
   Qed.
 
-  Lemma tsoundE_next n1 : tsoundE n1 evaluate_next_statement an_next.
+  Lemma tsoundE_next (top : bool) : tsoundE top evaluate_next_statement an_next.
   Proof.
     intros s sa acc sa' acc' HR Hon Hfr Htb Ea Haft Htop.
     destruct (an_next_inv _ _ _ _ Ea) as (sym & En & Hty).
@@ -311,7 +340,7 @@ Section ProgE.
     unfold line_of, toks_at. destruct Hon as (O1 & _ & O3). rewrite O1, O3. reflexivity.
   Qed.
 
-  Lemma tsoundE_for n1 fi f2 nest nest2 : tsoundE n1 (evaluate_for_statement fi nest) (an_for f2 nest2).
+  Lemma tsoundE_for (top : bool) fi f2 nest nest2 : tsoundE top (evaluate_for_statement fi nest) (an_for f2 nest2).
   Proof.
     intros s sa acc sa' acc' HR Hon Hfr Htb Ea Haft Htop.
     pose proof (sound_for fi f2 nest nest2 s sa acc HR) as Hs. rewrite Ea in Hs.
@@ -320,16 +349,171 @@ Section ProgE.
     destruct (evaluate_for_statement fi nest s) as [[[]|e l|p| |] s']; cbn [snd] in *; try exact Hs; try exact I.
     destruct Hs as [_ HR']. destruct (Hsh s' (proj1 (proj2 (proj2 HR))) eq_refl) as [Hst Hlp].
     assert (Hland : Land (loc s')).
-    { apply (land_here n1 s' sa' HR' Haft Htop). intros Hn1.
+    { apply (land_here top s' sa' HR' Haft Htop). intros Hn1.
       apply (TBs_of_PL s sa s' sa'); [apply HR | apply HR' | exact (onprog_of_R s sa HR Hon) | exact Hpl | exact (Htb Hn1)]. }
     split; [apply HR'|]. split; [|left; apply HR'].
     destruct Hfr as [F1 F2]. split; [rewrite Hst; exact F1|].
     rewrite Forall_forall in *. intros lp Hin. destruct (Hlp lp Hin) as [H|H]; [apply F2; exact H | rewrite H; exact Hland].
   Qed.
 
+  (* ---- INPUT ---- *)
+  Lemma peek_ok s : line_there s -> peek_next_token s = (Ok (nth_error (cur_line s) (loc_idx (loc s))), bumped s).
+  Proof.
+    intros H. unfold peek_next_token, cur_tokens, tokens_for_line, cur_line, line_there, bind, get, modify, ret, bumped in *. cbn.
+    destruct (loc_line (loc s)) as [n|]; [|reflexivity].
+    destruct (toks_get n (st_toks s)) eqn:E; [reflexivity | exfalso; exact (H n eq_refl E)].
+  Qed.
+
+  (* going back to the INPUT token *)
+  Lemma rewind_loop_input : forall d i s, line_there s ->
+    nth_error (cur_line s) i = Some TInput ->
+    (forall q, i < q -> q < i + S d -> nth_error (cur_line s) q <> Some TInput) ->
+    exists s', rewind_loop (i + S d) TInput s = (Ok tt, s') /\ eq_but_reads (set_loc (mkloc (loc_line (loc s)) i) s) s'.
+  Proof.
+    induction d as [|d IH]; intros i s Hl Hi Hq.
+    - replace (i + 1) with (S i) by lia. cbn [rewind_loop]. rewrite bind_modify.
+      set (s1 := set_loc _ s).
+      assert (Hl1 : line_there s1) by (unfold s1; destruct s as [? ? ? [? ?] ? ? ? ? ? ? ? ? ? ? ? ? ? ? ?]; exact Hl).
+      assert (Hc1 : cur_line s1 = cur_line s) by (unfold s1; destruct s as [? ? ? [? ?] ? ? ? ? ? ? ? ? ? ? ? ? ? ? ?]; reflexivity).
+      assert (Hi1 : loc_idx (loc s1) = i) by (unfold s1; destruct s; reflexivity).
+      unfold peek_is. rewrite bind_assoc_t, Safety.bind_run, (peek_ok s1 Hl1), Hc1, Hi1, Hi.
+      rewrite Safety.bind_ret. cbn [token_eqb]. exists (bumped s1). split; [reflexivity | apply ebr_bumped].
+    - replace (i + S (S d)) with (S (i + S d)) by lia. cbn [rewind_loop]. rewrite bind_modify.
+      set (s1 := set_loc _ s).
+      assert (Hl1 : line_there s1) by (unfold s1; destruct s as [? ? ? [? ?] ? ? ? ? ? ? ? ? ? ? ? ? ? ? ?]; exact Hl).
+      assert (Hc1 : cur_line s1 = cur_line s) by (unfold s1; destruct s as [? ? ? [? ?] ? ? ? ? ? ? ? ? ? ? ? ? ? ? ?]; reflexivity).
+      assert (Hi1 : loc_idx (loc s1) = i + S d) by (unfold s1; destruct s; reflexivity).
+      unfold peek_is. rewrite bind_assoc_t, Safety.bind_run, (peek_ok s1 Hl1), Hc1, Hi1.
+      rewrite Safety.bind_ret.
+      assert (Hne : match nth_error (cur_line s) (i + S d) with Some t => token_eqb t TInput | None => false end = false).
+      { pose proof (Hq (i + S d) ltac:(lia) ltac:(lia)) as Hn.
+        destruct (nth_error (cur_line s) (i + S d)) as [t|]; [|reflexivity].
+        destruct t; try reflexivity. exfalso. apply Hn. reflexivity. }
+      rewrite Hne.
+      assert (Hlb : line_there (bumped s1)) by (destruct s1; exact Hl1).
+      assert (Hcb : cur_line (bumped s1) = cur_line s) by (rewrite <- Hc1; destruct s1; reflexivity).
+      destruct (IH i (bumped s1) Hlb ltac:(rewrite Hcb; exact Hi) ltac:(intros q H1 H2; rewrite Hcb; apply Hq; lia)) as (s' & E & Hebr).
+      exists s'. split; [exact E|].
+      eapply ebr_trans; [|exact Hebr]. unfold eq_but_reads, s1. destruct s as [? ? ? [? ?] ? ? ? ? ? ? ? ? ? ? ? ? ? ? ?]. reflexivity.
+  Qed.
+
+  Lemma rewind_await s i d : line_there s -> loc_idx (loc s) = i + S d ->
+    nth_error (cur_line s) i = Some TInput ->
+    (forall q, i < q -> q < i + S d -> nth_error (cur_line s) q <> Some TInput) ->
+    exists s', rewind_program_and_await_input s = (Ok tt, s')
+      /\ loc s' = mkloc (loc_line (loc s)) i /\ functions s' = functions s /\ stack s' = stack s /\ loops s' = loops s.
+  Proof.
+    intros Hl Hidx Hi Hq. unfold rewind_program_and_await_input, rewind_before_token.
+    rewrite bind_assoc_t, bind_get, Hidx.
+    destruct (rewind_loop_input d i s Hl Hi Hq) as (s1 & E & Hebr).
+    rewrite Safety.bind_run, E. unfold modify.
+    eexists. split; [reflexivity|]. unfold eq_but_reads in Hebr.
+    pose proof (f_equal loc Hebr) as H1. pose proof (f_equal functions Hebr) as H2.
+    pose proof (f_equal stack Hebr) as H3. pose proof (f_equal loops Hebr) as H4.
+    destruct s, s1; cbn in *. repeat split; congruence.
+  Qed.
+
+  Lemma R_ext9 s s' sa : R s sa ->
+    st_toks s' = st_toks s -> st_keys s' = st_keys s -> immediate s' = immediate s -> loc s' = loc s ->
+    functions s' = functions s -> stack s' = stack s -> loops s' = loops s ->
+    variables s' = variables s -> arrays s' = arrays s -> R s' sa.
+  Proof.
+    intros HR E1 E2 E3 E4 E5 E6 E7 E8 E9. apply (R_ext s); try assumption. apply (caps_inv_ext s); try assumption. apply HR.
+  Qed.
+
+  Lemma tsoundE_input (top : bool) fi f2 nest nest2 : forall s sa acc sa' acc',
+    R s sa -> onprog s -> FramesL s -> line_there s ->
+    loc_idx (loc s) <> 0 -> nth_error (cur_line s) (pred (loc_idx (loc s))) = Some TInput ->
+    Land (mkloc (loc_line (loc s)) (pred (loc_idx (loc s)))) ->
+    an_input f2 nest2 (sa, acc) = (Ok tt, (sa', acc')) ->
+    match evaluate_input_statement fi nest s with
+    | (Ok _, s') => functions s' = [] /\ FramesL s' /\ (C s' sa' \/ Land (loc s'))
+    | (Err e _, _) => benign e
+    | _ => True
+    end.
+  Proof.
+    intros s sa acc sa' acc' HR Hon Hfr Hl Hnz Hin Hland Ea.
+    assert (Hfn : functions s = []) by apply HR.
+    unfold evaluate_input_statement, take_input. rewrite bind_assoc_t, bind_get.
+    destruct (input s) as [text|] eqn:Ei.
+    2:{ (* no reply yet: back to the INPUT token, wait *)
+        rewrite Safety.bind_ret.
+        destruct (rewind_await s (pred (loc_idx (loc s))) 0 Hl ltac:(lia) Hin ltac:(intros; lia)) as (s' & E & L1 & L2 & L3 & L4).
+        rewrite E. split; [congruence|]. split; [unfold FramesL; rewrite L3, L4; exact Hfr | right; rewrite L1; exact Hland]. }
+    rewrite bind_assoc_t, bind_modify. destruct (parse_data text) as [elems n]. rewrite Safety.bind_ret.
+    set (st := set_input None s).
+    assert (HRt : R st sa) by (apply (R_ext9 s); try (destruct s; reflexivity); exact HR).
+    unfold an_input in Ea. unfold abind at 1 in Ea.
+    pose proof (sound_parse_lvalue fi f2 nest nest2 st sa acc HRt) as Hs.
+    pose proof (apl_parse_lvalue exprtok (fun t H => H) token_eqb_exprtok f2 nest2 (sa, acc)) as Hpl.
+    destruct (an_parse_lvalue f2 nest2 (sa, acc)) as [[alv|? ?|?| |] [sa2 acc2]]; try discriminate Ea.
+    specialize (Hpl alv (sa2, acc2) eq_refl). cbn [fst snd] in *.
+    unfold log_access in Ea. injection Ea as Esa Eacc. subst sa2.
+    pose proof (KS_parse_lvalue fi nest st) as Kp.
+    rewrite Safety.bind_run.
+    destruct (parse_lvalue fi nest st) as [[lv|e l|p| |] s2] eqn:Epl; cbn [snd] in *; try exact Hs; try exact I.
+    destruct Hs as [Hsym HR2].
+    destruct (Kp ltac:(destruct s; exact Hfn)) as (K1 & K2 & K3).
+    assert (Hfr2 : FramesL s2).
+    { unfold FramesL. rewrite K2, K3. replace (stack st) with (stack s) by (destruct s; reflexivity).
+      replace (loops st) with (loops s) by (destruct s; reflexivity). exact Hfr. }
+    destruct elems as [|first rest]; [exact I|].
+    destruct (coerce_data (lv_sym lv) first) as [v|er l|pp| |] eqn:Ec; try exact I.
+    - (* the reply fits: store it *)
+      pose proof (coerce_kind' _ _ _ Ec) as Hk.
+      destruct lv as [sym idx]. cbn [lv_sym] in *.
+      pose proof (equiet_assign sym idx v Hk s2 sa' HR2) as Hq.
+      pose proof (KS_assign (mklv sym idx) v s2) as Ka.
+      rewrite Safety.bind_run.
+      destruct (assign_value (mklv sym idx) v s2) as [[[]|e l|p| |] s3]; cbn [snd] in *; try exact Hq; try exact I.
+      destruct Hq as [HR3 _]. destruct (Ka K1) as (A1 & A2 & A3).
+      assert (Hfr3 : FramesL s3) by (unfold FramesL; rewrite A2, A3; exact Hfr2).
+      destruct (match rest with [] => Nat.ltb n (length text) | _ :: _ => true end).
+      + unfold push_output, modify. split; [destruct s3; exact A1|]. split; [destruct s3; exact Hfr3|].
+        left. destruct HR3 as [HC3 _]. destruct s3; exact HC3.
+      + unfold ret. split; [exact A1|]. split; [exact Hfr3 | left; apply HR3].
+    - (* the reply does not fit: ask again, back to the INPUT token *)
+      destruct er; try exact (coerce_benign _ _ _ _ Ec).
+      all: try (pose proof (coerce_benign _ _ _ _ Ec) as Hb; exact Hb).
+      unfold push_output. rewrite bind_modify.
+      set (s3 := set_outputs _ s2).
+      assert (Hloc2 : loc s2 = loc sa') by apply HR2.
+      assert (Hloca : loc sa = loc s) by (symmetry; apply HR).
+      destruct Hpl as (P1 & P2 & P3 & P4 & P5).
+      assert (Hline : loc_line (loc s3) = loc_line (loc s)) by (unfold s3; destruct s2; cbn in *; congruence).
+      assert (Hcl3 : cur_line s3 = cur_line s).
+      { assert (Hont : onprog st) by (unfold st; destruct s; exact Hon).
+        pose proof (onprog_step ptoks pkeys (parse_lvalue fi nest) st
+                      (keeps_parse_lvalue st_toks rf_st_toks fi nest) (keeps_parse_lvalue st_keys rf_st_keys fi nest)
+                      (imm_parse_lvalue fi nest) Hont) as Hon2. rewrite Epl in Hon2. cbn [snd] in Hon2.
+        assert (Hon3 : onprog s3) by (unfold s3; destruct s2; exact Hon2).
+        rewrite (cur_line_onprog s3 Hon3), (cur_line_onprog s Hon). unfold toks_at. rewrite Hline. reflexivity. }
+      assert (Hl3 : line_there s3).
+      { unfold line_there in *. rewrite Hline. intros k Hk.
+        replace (st_toks s3) with (st_toks s); [exact (Hl k Hk)|].
+        destruct HR2 as [(C1 & _) _]. destruct HR as [(D1 & _) _]. unfold s3. destruct s2; cbn in *. congruence. }
+      set (i := pred (loc_idx (loc s))).
+      assert (Hidx : exists d, loc_idx (loc s3) = i + S d).
+      { exists (loc_idx (loc sa') - loc_idx (loc sa)). replace (loc s3) with (loc sa') by (unfold s3; destruct s2; cbn in *; congruence).
+        rewrite Hloca in *. unfold i. lia. }
+      destruct Hidx as (d & Hidx).
+      destruct (rewind_await s3 i d Hl3 Hidx ltac:(rewrite Hcl3; exact Hin)) as (s4 & E & L1 & L2 & L3 & L4).
+      { intros q H1 H2. rewrite Hcl3.
+        assert (Hq : loc_idx (loc sa) <= q < loc_idx (loc sa')).
+        { replace (loc s3) with (loc sa') in Hidx by (unfold s3; destruct s2; cbn in *; congruence). rewrite Hloca. unfold i in *. lia. }
+        destruct (P5 q Hq) as (t & Ht & Hx).
+        replace (line_of sa) with (cur_line s) in Ht.
+        2:{ destruct HR as [(D1 & D2 & D3 & D4) _]. unfold line_of, cur_line. rewrite D1, D3, D4. reflexivity. }
+        rewrite Ht. intros Habs. injection Habs as ->. discriminate Hx. }
+      rewrite E.
+      split; [rewrite L2; unfold s3; destruct s2; exact K1|].
+      split; [unfold FramesL; rewrite L3, L4; unfold s3; destruct s2; exact Hfr2|].
+      right. rewrite L1, Hline. exact Hland.
+  Qed.
+
   (* ---- statements that keep the two cursors together and the frames alone ---- *)
-  Lemma tsoundE_of_sound n1 m a :
-    sound (fun _ _ => True) m a -> mrel KS m -> tsoundE n1 m a.
+  Lemma tsoundE_of_sound (top : bool) m a :
+    sound (fun _ _ => True) m a -> mrel KS m -> tsoundE top m a.
   Proof.
     intros Hs Hk s sa acc sa' acc' HR Hon Hfr Htb Ea Haft Htop.
     specialize (Hs s sa acc HR). rewrite Ea in Hs. pose proof (Hk s) as K.
@@ -403,11 +587,7 @@ Section ProgE.
 
   (* the checker keeps the program and, there being no DEF, the empty function table *)
   Lemma clean_store sa : onprog sa -> CleanStore sa.
-  Proof.
-    intros (O1 & _ & O3). split; [|exact O3]. rewrite O1. intros n ts E. pose proof (Hclean n ts E) as H.
-    unfold clean2_line, nodef_line in *. rewrite forallb_forall in *. intros t Ht. specialize (H t Ht).
-    destruct t; try reflexivity; discriminate H.
-  Qed.
+  Proof. intros (O1 & _ & O3). split; [|exact O3]. rewrite O1. exact Hclean. Qed.
 
   Lemma keepA {A} (a : MA A) sa acc : aofn a -> onprog sa -> functions sa = [] ->
     onprog (fst (snd (a (sa, acc)))) /\ functions (fst (snd (a (sa, acc)))) = [].
@@ -427,18 +607,31 @@ Section ProgE.
 
   (* ------------------------------------------------------------------ *)
   (* one level of statements: [rec] is the interpreter's statement evaluator one level down *)
+  (* the tokens of an accepted INPUT statement *)
+  Lemma input_stmt_plain f2 n2 sa acc sa' acc' :
+    analyze_statement f2 n2 (sa, acc) = (Ok tt, (sa', acc')) ->
+    nth_error (cur_line sa) (loc_idx (loc sa)) = Some TInput -> PL plainT sa sa'.
+  Proof.
+    intros Ea Et. destruct f2 as [|f2]; cbn [analyze_statement] in Ea; [discriminate Ea|].
+    destruct (Nat.eqb n2 max_nesting); [discriminate Ea|].
+    rewrite an_statement_body_dispatch in Ea. unfold abind at 1 in Ea. unfold lift at 1 in Ea. cbn [fst snd] in Ea.
+    destruct (next_token_cases sa) as [[p Hp] | [Hlt Hn]]; [rewrite Hp in Ea; discriminate Ea|].
+    rewrite Hn, Et in Ea. cbn [fst snd adispatch] in Ea.
+    pose proof (aplp_input f2 (S n2) (advd sa, acc) tt (sa', acc') Ea) as Hpl. cbn [fst] in Hpl.
+    eapply PL_trans; [|exact Hpl]. apply (PL_step plainT sa TInput); [|reflexivity].
+    replace (line_of sa) with (cur_line sa) by (unfold line_of, cur_line; reflexivity). exact Et.
+  Qed.
+
   Section Level.
     Variable rec : M unit.
-    Variable n1r : nat.
-    Hypothesis Hn1r : n1r <> 0.
-    Hypothesis Hrec : forall f n, tsoundE n1r rec (analyze_statement f n).
+    Hypothesis Hrec : forall f n, tsoundES false rec (analyze_statement f n).
     Hypothesis Hk1 : mrel (keeps st_toks) rec.
     Hypothesis Hk2 : mrel (keeps st_keys) rec.
     Hypothesis Him : mrel IM rec.
     Hypothesis Hcaps : mrel (inv_rel caps_inv) rec.
 
     Lemma tsoundE_stmt_or_goto f n :
-      tsoundE n1r (statement_or_goto_line_number rec) (an_statement_or_goto (analyze_statement f n)).
+      tsoundE false (statement_or_goto_line_number rec) (an_statement_or_goto (analyze_statement f n)).
     Proof.
       intros s sa acc sa' acc' HR Hon Hfr Htb Ea Haft Htop.
       unfold statement_or_goto_line_number, an_statement_or_goto in *. unfold abind, lift in Ea. cbn [fst snd] in Ea.
@@ -450,11 +643,23 @@ Section ProgE.
       destruct (peek_next_token sa) as [r' sa1]. cbn [fst snd] in *. subst r'.
       assert (HR1 : R (bumped s) sa1) by (eapply R_same_rt; eassumption).
       assert (Hfr1 : FramesL (bumped s)) by (destruct s; exact Hfr).
-      assert (Htb1 : n1r <> 0 -> TBs (bumped s)) by (intros H; destruct s; exact (Htb H)).
+      assert (Htb1 : false = false -> TBs (bumped s)) by (intros H; destruct s; exact (Htb H)).
+      assert (Hin : analyze_statement f n (sa1, acc) = (Ok tt, (sa', acc')) ->
+                    nth_error (cur_line (bumped s)) (loc_idx (loc (bumped s))) = Some TInput -> Land (loc (bumped s))).
+      { intros Ea' Hti. right. right.
+        assert (Hona1 : onprog sa1) by (apply (onprog_of_R (bumped s) sa1 HR1 Hon1)).
+        assert (Hl1 : loc sa1 = loc (bumped s)) by (symmetry; apply HR1).
+        assert (Hcl : cur_line sa1 = cur_line (bumped s)) by (rewrite (cur_line_onprog _ Hona1), (cur_line_onprog _ Hon1), Hl1; reflexivity).
+        split; [rewrite <- (cur_line_onprog _ Hon1); exact Hti|].
+        split; [exact (Htb1 eq_refl)|].
+        exists sa1, acc, f, n, sa', acc'.
+        split; [exact Hona1|]. split; [apply HR1|]. split; [exact Hl1|]. split; [exact Ea'|]. split; [exact Haft|].
+        pose proof (input_stmt_plain f n sa1 acc sa' acc' Ea' ltac:(rewrite Hcl, Hl1; exact Hti)) as Hpl.
+        exact (TBs_of_PL (bumped s) sa1 sa' sa' (eq_sym Hl1) eq_refl Hona1 Hpl (Htb1 eq_refl)). }
       destruct (nth_error (cur_line s) (loc_idx (loc s))) as [t|].
-      - destruct t; try exact (Hrec f n (bumped s) sa1 acc sa' acc' HR1 Hon1 Hfr1 Htb1 Ea Haft Htop).
-        exact (tsoundE_goto n1r (bumped s) sa1 acc sa' acc' HR1 Hon1 Hfr1 Htb1 Ea Haft Htop).
-      - exact (Hrec f n (bumped s) sa1 acc sa' acc' HR1 Hon1 Hfr1 Htb1 Ea Haft Htop).
+      - destruct t; try exact (Hrec f n (bumped s) sa1 acc sa' acc' HR1 Hon1 Hfr1 Htb1 (Hin Ea) Ea Haft Htop).
+        exact (tsoundE_goto false (bumped s) sa1 acc sa' acc' HR1 Hon1 Hfr1 Htb1 Ea Haft Htop).
+      - exact (Hrec f n (bumped s) sa1 acc sa' acc' HR1 Hon1 Hfr1 Htb1 (Hin Ea) Ea Haft Htop).
     Qed.
 
     Lemma onprog_stmt_or_goto s : onprog s -> onprog (snd (statement_or_goto_line_number rec s)).
@@ -503,10 +708,10 @@ Section ProgE.
         repeat split; try (destruct s; cbn in *; congruence). }
       assert (Hona' : onprog (advd s)) by (destruct s; exact Hon).
       assert (Hfr' : FramesL (advd s)) by (destruct s; exact Hfr).
-      assert (Htb' : n1r <> 0 -> TBs (advd s)).
+      assert (Htb' : false = false -> TBs (advd s)).
       { intros _. apply (TBs_advd s TElse); [rewrite (cur_line_onprog s Hon), Hl; exact Ht | reflexivity | exact Hon | exact Htb]. }
       pose proof (tsoundE_stmt_or_goto f n (advd s) sa acc sa' acc' HRa Hona' Hfr' Htb' Ea Haft
-                    (fun H => False_ind _ (Hn1r H))) as H3.
+                    (fun H => ltac:(discriminate H))) as H3.
       pose proof (onprog_stmt_or_goto (advd s) Hona') as Hon3.
       destruct (statement_or_goto_line_number rec (advd s)) as [[[]|e l0|p| |] s3]; cbn [snd] in *; try exact H3; try exact I.
       destruct H3 as (F3 & Fr3 & Pos3).
@@ -643,7 +848,7 @@ Section ProgE.
       destruct (nth_error (cur_line sa) (loc_idx (loc sa))) as [t|] eqn:Et; cbn [fst snd] in *.
       2:{ (* end of the line *) cbn [adispatch] in Ea. unfold aret in Ea. injection Ea as <- <-.
           apply (ScanAt_loc (loc (bumped sa))); [destruct sa; reflexivity | exact Hat]. }
-      assert (Hcl : clean2_tok t = true) by (apply (clean2_at sa _ t Hon Et)).
+      assert (Hcl : nodef_tok t = true) by (apply (clean2_at sa _ t Hon Et)).
       assert (Hl1 : loc (advd sa) = mkloc (loc_line (loc sa)) (S (loc_idx (loc sa)))) by (destruct sa; reflexivity).
       assert (Hstep : plainT t = true -> PL plainT sa (advd sa)).
       { intros Hp. apply (PL_step plainT sa t); [|exact Hp].
@@ -744,8 +949,8 @@ Section ProgE.
       rewrite (firstn_S_nth _ _ _ Ht), rev_app_distr. reflexivity.
     Qed.
 
-    Lemma tsoundE_if n1 fi f2 nestE nestA fa' na' :
-      tsoundE n1 (evaluate_if_statement fi nestE rec) (an_if f2 nestA (analyze_statement fa' na')).
+    Lemma tsoundE_if (top : bool) fi f2 nestE nestA fa' na' :
+      tsoundE top (evaluate_if_statement fi nestE rec) (an_if f2 nestA (analyze_statement fa' na')).
     Proof.
       intros s sa acc sa' acc' HR Hon Hfr Htb Ea Haft Htop.
       rewrite (if_unfold fi nestE rec). unfold an_if in Ea.
@@ -792,7 +997,7 @@ Section ProgE.
       destruct (to_bool c).
       - (* the THEN clause is executed *)
         pose proof (tsoundE_stmt_or_goto fa' na' s2 sa2 acc1 sa3 acc3 HR2 Hon2 Hfr2 (fun _ => Htb2) E3 Haft3
-                      (fun H => False_ind _ (Hn1r H))) as H3.
+                      (fun H => ltac:(discriminate H))) as H3.
         pose proof (onprog_stmt_or_goto s2 Hon2) as Hon3.
         rewrite Safety.bind_run.
         destruct (statement_or_goto_line_number rec s2) as [[[]|e l|p| |] s3]; cbn [snd] in *; try exact H3; try exact I.
@@ -839,19 +1044,21 @@ Section ProgE.
   End Level.
 
   (* ---- the dispatcher, every statement ---- *)
-  Lemma tsoundE_body n1 fi f2 nestE nestA rec fa' na' :
-    (forall f n, tsoundE (S n1) rec (analyze_statement f n)) ->
+  Lemma tsoundE_body (top : bool) fi f2 nestE nestA rec fa' na' :
+    (forall f n, tsoundES false rec (analyze_statement f n)) ->
     mrel (keeps st_toks) rec -> mrel (keeps st_keys) rec -> mrel IM rec -> mrel (inv_rel caps_inv) rec ->
-    tsoundE n1 (evaluate_statement_body fi nestE rec) (an_statement_body f2 nestA (analyze_statement fa' na')).
+    tsoundES top (evaluate_statement_body fi nestE rec) (an_statement_body f2 nestA (analyze_statement fa' na')).
   Proof.
-    intros Hrec Hk1 Hk2 Him Hcaps s sa acc sa' acc' HR Hon Hfr Htb Ea Haft Htop.
+    intros Hrec Hk1 Hk2 Him Hcaps s sa acc sa' acc' HR Hon Hfr Htb Hin Ea Haft Htop.
     rewrite body_split. rewrite an_statement_body_dispatch in Ea. rewrite Safety.bind_run.
     destruct (trace_quiet s) as (s0 & Et & T1 & T2 & T3 & T4 & T5 & T6 & T7 & T8 & T9). rewrite Et.
     assert (HR0 : R s0 sa).
     { apply (R_ext s); try assumption. apply (caps_inv_ext s); try assumption. apply HR. }
     assert (Hon0 : onprog s0) by (destruct Hon as (O1 & O2 & O3); repeat split; congruence).
     assert (Hfr0 : FramesL s0) by (unfold FramesL; rewrite T6, T7; exact Hfr).
-    assert (Htb0 : n1 <> 0 -> TBs s0) by (intros H; unfold TBs; rewrite T4; exact (Htb H)).
+    assert (Htb0 : top = false -> TBs s0) by (intros H; unfold TBs; rewrite T4; exact (Htb H)).
+    assert (Hin0 : nth_error (cur_line s0) (loc_idx (loc s0)) = Some TInput -> Land (loc s0)).
+    { rewrite (cur_line_onprog s0 Hon0), T4, <- (cur_line_onprog s Hon). exact Hin. }
     destruct (next_token_bothL s0 sa acc HR0 Hon0 Hfr0) as (E1 & El & HR1 & Hon1 & Hfr1).
     unfold abind at 1 in Ea. rewrite El in Ea.
     destruct (next_token_cases s0) as [[p Hp] | [Hl Hn]].
@@ -865,37 +1072,47 @@ Section ProgE.
     destruct (nth_error (cur_line s0) (loc_idx (loc s0))) as [t1|] eqn:E1'; [|discriminate Hn].
     injection Hn as Ht Hs1. subst t1 s1.
     pose proof (clean2_at s0 _ t Hon0 E1') as Hcl.
-    assert (Htb1 : token_eqb t TColon = false -> n1 <> 0 -> TBs (advd s0)).
+    assert (Htb1 : token_eqb t TColon = false -> top = false -> TBs (advd s0)).
     { intros Hc Hn1. apply (TBs_advd s0 t E1' Hc Hon0 (Htb0 Hn1)). }
     destruct (straight_head (Some t)) eqn:Hst.
     - destruct t; try discriminate Hst;
         try (destruct (straight_frames fi nestE rec _ Hst ltac:(discriminate)) as (F1 & _);
-             exact (tsoundE_of_sound n1 _ _ (straight_statement_sound2 fi f2 nestE nestA rec (analyze_statement fa' na') _ Hst) F1
+             exact (tsoundE_of_sound top _ _ (straight_statement_sound2 fi f2 nestE nestA rec (analyze_statement fa' na') _ Hst) F1
                       (advd s0) sa1 acc sa' acc' HR1 Hon1 Hfr1 (Htb1 eq_refl) Ea Haft Htop)).
       + (* ":" *) cbn [edispatch adispatch] in *. unfold aret in Ea. injection Ea as <- <-. unfold ret.
         split; [apply HR1|]. split; [exact Hfr1 | left; apply HR1].
-      + (* FOR *) exact (tsoundE_for n1 fi f2 nestE nestA (advd s0) sa1 acc sa' acc' HR1 Hon1 Hfr1 (Htb1 eq_refl) Ea Haft Htop).
+      + (* FOR *) exact (tsoundE_for top fi f2 nestE nestA (advd s0) sa1 acc sa' acc' HR1 Hon1 Hfr1 (Htb1 eq_refl) Ea Haft Htop).
     - destruct t; try discriminate Hst; try discriminate Hcl; cbn [edispatch adispatch] in *; try discriminate Ea.
-      + exact (tsoundE_goto n1 (advd s0) sa1 acc sa' acc' HR1 Hon1 Hfr1 (Htb1 eq_refl) Ea Haft Htop).
-      + exact (tsoundE_gosub n1 (advd s0) sa1 acc sa' acc' HR1 Hon1 Hfr1 (Htb1 eq_refl) Ea Haft Htop).
-      + exact (tsoundE_return n1 (advd s0) sa1 acc sa' acc' HR1 Hon1 Hfr1 (Htb1 eq_refl) Ea Haft Htop).
-      + exact (tsoundE_if rec (S n1) ltac:(discriminate) Hrec Hk1 Hk2 Him n1 fi f2 nestE nestA fa' na'
+      + (* INPUT *)
+        apply (tsoundE_input top fi f2 nestE nestA (advd s0) sa1 acc sa' acc' HR1 Hon1 Hfr1); try exact Ea.
+        * destruct s0 as [? ? ? [? ?] ? ? ? ? ? ? ? ? ? ? ? ? ? ? ?]; exact Hl.
+        * destruct s0 as [? ? ? [? ?] ? ? ? ? ? ? ? ? ? ? ? ? ? ? ?]; cbn; discriminate.
+        * replace (cur_line (advd s0)) with (cur_line s0) by (destruct s0 as [? ? ? [? ?] ? ? ? ? ? ? ? ? ? ? ? ? ? ? ?]; reflexivity).
+          replace (pred (loc_idx (loc (advd s0)))) with (loc_idx (loc s0)) by (destruct s0 as [? ? ? [? ?] ? ? ? ? ? ? ? ? ? ? ? ? ? ? ?]; reflexivity).
+          exact E1'.
+        * replace (mkloc (loc_line (loc (advd s0))) (pred (loc_idx (loc (advd s0))))) with (loc s0)
+            by (destruct s0 as [? ? ? [? ?] ? ? ? ? ? ? ? ? ? ? ? ? ? ? ?]; reflexivity).
+          exact (Hin0 eq_refl).
+      + exact (tsoundE_goto top (advd s0) sa1 acc sa' acc' HR1 Hon1 Hfr1 (Htb1 eq_refl) Ea Haft Htop).
+      + exact (tsoundE_gosub top (advd s0) sa1 acc sa' acc' HR1 Hon1 Hfr1 (Htb1 eq_refl) Ea Haft Htop).
+      + exact (tsoundE_return top (advd s0) sa1 acc sa' acc' HR1 Hon1 Hfr1 (Htb1 eq_refl) Ea Haft Htop).
+      + exact (tsoundE_if rec Hrec Hk1 Hk2 Him top fi f2 nestE nestA fa' na'
                  (advd s0) sa1 acc sa' acc' HR1 Hon1 Hfr1 (Htb1 eq_refl) Ea Haft Htop).
-      + exact (tsoundE_end n1 (advd s0) sa1 acc sa' acc' HR1 Hon1 Hfr1 (Htb1 eq_refl) Ea Haft Htop).
-      + exact (tsoundE_stop n1 (advd s0) sa1 acc sa' acc' HR1 Hon1 Hfr1 (Htb1 eq_refl) Ea Haft Htop).
-      + exact (tsoundE_next n1 (advd s0) sa1 acc sa' acc' HR1 Hon1 Hfr1 (Htb1 eq_refl) Ea Haft Htop).
+      + exact (tsoundE_end top (advd s0) sa1 acc sa' acc' HR1 Hon1 Hfr1 (Htb1 eq_refl) Ea Haft Htop).
+      + exact (tsoundE_stop top (advd s0) sa1 acc sa' acc' HR1 Hon1 Hfr1 (Htb1 eq_refl) Ea Haft Htop).
+      + exact (tsoundE_next top (advd s0) sa1 acc sa' acc' HR1 Hon1 Hfr1 (Htb1 eq_refl) Ea Haft Htop).
   Qed.
 
-  Theorem tsoundE_statement : forall fi n1 f2 n2, tsoundE n1 (evaluate_statement fi n1) (analyze_statement f2 n2).
+  Theorem tsoundE_statement : forall fi n1 top f2 n2, tsoundES top (evaluate_statement fi n1) (analyze_statement f2 n2).
   Proof.
-    induction fi as [|fi IH]; intros n1 f2 n2 s sa acc sa' acc' HR Hon Hfr Htb Ea Haft Htop; [exact I|].
+    induction fi as [|fi IH]; intros n1 top f2 n2 s sa acc sa' acc' HR Hon Hfr Htb Hin Ea Haft Htop; [exact I|].
     destruct f2 as [|f2]; [discriminate Ea|]. cbn [analyze_statement] in Ea. cbn [evaluate_statement].
     destruct (Nat.eqb n2 max_nesting); [discriminate Ea|].
     destruct (Nat.eqb n1 max_nesting); [exact I|].
-    apply (tsoundE_body n1 fi f2 (S n1) (S n2) (evaluate_statement fi (S n1)) f2 (S n2)
-             (fun f n => IH (S n1) f n)
+    apply (tsoundE_body top fi f2 (S n1) (S n2) (evaluate_statement fi (S n1)) f2 (S n2)
+             (fun f n => IH (S n1) false f n)
              (keeps_evaluate_statement st_toks rf_st_toks fi (S n1)) (keeps_evaluate_statement st_keys rf_st_keys fi (S n1))
-             (imm_evaluate_statement fi (S n1)) (caps_evaluate_statement fi (S n1)) s sa acc sa' acc' HR Hon Hfr Htb Ea Haft Htop).
+             (imm_evaluate_statement fi (S n1)) (caps_evaluate_statement fi (S n1)) s sa acc sa' acc' HR Hon Hfr Htb Hin Ea Haft Htop).
   Qed.
 
   (* ------------------------------------------------------------------ *)
@@ -986,7 +1203,20 @@ Section ProgE.
                   (imm_evaluate_statement fi 0) Hon) as Hon1.
     pose proof (caps_evaluate_statement fi 0 (bumped sR) Hc) as Hc1.
     rewrite Safety.bind_run.
-    destruct Hland as [(sa & acc & Hona & Hfa & Hla & (stmts & m & st' & Hw)) | (Hline & Htok & Hthen)].
+    pose proof Hland as HlandB.
+    destruct Hland as [(sa & acc & Hona & Hfa & Hla & (stmts & m & st' & Hw))
+                      | [(Hline & Htok & Hthen)
+                        | (Htok & Hthen & sa & acc & f & n & sa' & acc' & Hona & Hfa & Hla & Ean & Haft & Hthen')]].
+    3:{ (* an INPUT standing as a clause: the statement the checker accepted there, on its own *)
+        assert (HRb : R (bumped sR) sa).
+        { split; [destruct Hon as (O1 & O2 & O3), Hona as (A1 & A2 & A3); repeat split; congruence|].
+          split; [exact Hc|]. split; [exact Hf | exact Hfa]. }
+        pose proof (tsoundE_statement fi 0 false f n (bumped sR) sa acc sa' acc' HRb Hon Hfr
+                      (fun _ => Hthen) (fun _ => HlandB) Ean Haft (fun H => ltac:(discriminate H))) as Hst.
+        destruct (evaluate_statement fi 0 (bumped sR)) as [[[]|e l|p| |] s1]; cbn [snd] in *; try exact Hst; try exact I.
+        destruct Hst as (F1 & F2 & F3). apply Htail; try assumption.
+        destruct F3 as [HC1 | HL]; [|exact HL].
+        destruct HC1 as (_ & _ & _ & C4). rewrite C4. apply (land_of_after _ Haft Hthen'). }
     - (* an accepted position: follow the checker's walk *)
       destruct stmts as [|k]; [discriminate Hw|]. cbn [walk_line fst snd] in Hw.
       assert (HC : C (bumped sR) sa).
@@ -1017,8 +1247,8 @@ Section ProgE.
         split; [exact Hc|]. split; [exact Hf | exact Hfnb]. }
       assert (Hacc1 : AccAt (loc sa1)).
       { exists sa1, acc1. split; [exact Hona1|]. split; [exact Hfna1|]. split; [reflexivity|]. exists k, m, st'. exact Hw. }
-      pose proof (tsoundE_statement fi 0 fa 0 (bumped sR) (bumped sa) acc sa1 acc1 HRb Hon Hfr
-                    (fun H => False_ind _ (H eq_refl)) Ean (After_acc _ Hacc1) (fun _ => Hacc1)) as Hst.
+      pose proof (tsoundE_statement fi 0 true fa 0 (bumped sR) (bumped sa) acc sa1 acc1 HRb Hon Hfr
+                    (fun H => ltac:(discriminate H)) (fun _ => HlandB) Ean (After_acc _ Hacc1) (fun _ => Hacc1)) as Hst.
       destruct (evaluate_statement fi 0 (bumped sR)) as [[[]|e l|p| |] s1]; cbn [snd] in *; try exact Hst; try exact I.
       destruct Hst as (F1 & F2 & F3). apply Htail; try assumption.
       destruct F3 as [HC1 | HL]; [|exact HL]. left. destruct HC1 as (_ & _ & _ & C4). rewrite C4. exact Hacc1.
@@ -1082,6 +1312,18 @@ Section ProgE.
       pose proof (Hn s2 E) as HI2. split; [exact HI2|]. intros Hst2. apply (continue_soundL fi s2 HI2 Hst2).
   Qed.
 
+  Theorem run_soundI fi s0 s : InvL s0 -> ReachI fi s0 s -> InvL s /\ (state s = Running -> turn_ok fi s).
+  Proof.
+    intros H0 Hr. induction Hr as [|s1 s2 Hr IH Hst E|s1 s2 text Hr IH E].
+    - split; [exact H0|]. intros Hst. apply (continue_soundL fi s0 H0 Hst).
+    - destruct IH as [HI1 _]. destruct (continue_soundL fi s1 HI1 Hst) as [_ Hn].
+      pose proof (Hn s2 E) as HI2. split; [exact HI2|]. intros Hst2. apply (continue_soundL fi s2 HI2 Hst2).
+    - destruct IH as [HI1 _]. assert (HI2 : InvL s2).
+      { unfold provide_input in E. destruct (state s1); try discriminate E. injection E as <-.
+        apply (InvL_ext s1 _ HI1); destruct s1; reflexivity. }
+      split; [exact HI2|]. intros Hst2. apply (continue_soundL fi s2 HI2 Hst2).
+  Qed.
+
   Theorem run_command_soundL fi line s0 :
     state s0 = Idle -> st_toks s0 = ptoks -> st_keys s0 = pkeys -> caps_inv s0 -> command_of line = Some CRun ->
     match start_evaluating fi line s0 with
@@ -1125,6 +1367,32 @@ Proof.
   intros t Ht. specialize (Hc t Ht). destruct t; try reflexivity; discriminate Hc.
 Qed.
 
+(* THE THEOREM with ELSE and INPUT: only DEF is excluded; the run includes the host's replies *)
+Theorem program_sound_input fuel fi text :
+  line_bound text < fuel ->
+  forallb (fun msg => negb (is_error_msg msg)) (an_messages (analyze fuel text)) = true ->
+  nodef_program (st_toks (p_prog (pass1_of' text))) ->
+  forall line s0, state s0 = Idle -> st_toks s0 = st_toks (p_prog (pass1_of' text)) ->
+    st_keys s0 = st_keys (p_prog (pass1_of' text)) ->
+    caps_inv s0 -> command_of line = Some CRun ->
+    match start_evaluating fi line s0 with
+    | (Ok _, s1) => forall s, ReachI fi s1 s -> state s = Running -> turn_ok fi s
+    | (Err e _, _) => benign e
+    | _ => True
+    end.
+Proof.
+  intros Hfuel Hmsgs Hclean line s0 Hidle Ht Hk Hc Hcmd.
+  pose proof (accepted_lines_nodef fuel text Hfuel Hmsgs Hclean) as G.
+  assert (HPP : PP (0 + length (split_lines text)) (pass1_of' text)) by (apply PP_lines, PP_init).
+  destruct HPP as [Hwf _ _ _]. destruct (wf_store _ Hwf) as (_ & Hkeys & _).
+  pose proof (run_command_soundL fuel (st_toks (p_prog (pass1_of' text))) (st_keys (p_prog (pass1_of' text))) Hclean G
+                (fun n Hn => proj1 (Hkeys n) Hn) fi line s0 Hidle Ht Hk Hc Hcmd) as H.
+  destruct (start_evaluating fi line s0) as [[[]|e l|p| |] s1]; try exact H; try exact I.
+  intros s Hr Hst.
+  exact (proj2 (run_soundI fuel (st_toks (p_prog (pass1_of' text))) (st_keys (p_prog (pass1_of' text))) Hclean G
+                  (fun n Hn => proj1 (Hkeys n) Hn) fi s1 s H Hr) Hst).
+Qed.
+
 Theorem program_sound_else fuel fi text :
   line_bound text < fuel ->
   forallb (fun msg => negb (is_error_msg msg)) (an_messages (analyze fuel text)) = true ->
@@ -1139,13 +1407,7 @@ Theorem program_sound_else fuel fi text :
     end.
 Proof.
   intros Hfuel Hmsgs Hclean line s0 Hidle Ht Hk Hc Hcmd.
-  pose proof (accepted_lines_nodef fuel text Hfuel Hmsgs (clean2_nodef _ Hclean)) as G.
-  assert (HPP : PP (0 + length (split_lines text)) (pass1_of' text)) by (apply PP_lines, PP_init).
-  destruct HPP as [Hwf _ _ _]. destruct (wf_store _ Hwf) as (_ & Hkeys & _).
-  pose proof (run_command_soundL fuel (st_toks (p_prog (pass1_of' text))) (st_keys (p_prog (pass1_of' text))) Hclean G
-                (fun n Hn => proj1 (Hkeys n) Hn) fi line s0 Hidle Ht Hk Hc Hcmd) as H.
+  pose proof (program_sound_input fuel fi text Hfuel Hmsgs (clean2_nodef _ Hclean) line s0 Hidle Ht Hk Hc Hcmd) as H.
   destruct (start_evaluating fi line s0) as [[[]|e l|p| |] s1]; try exact H; try exact I.
-  intros s Hr Hst.
-  exact (proj2 (run_soundL fuel (st_toks (p_prog (pass1_of' text))) (st_keys (p_prog (pass1_of' text))) Hclean G
-                  (fun n Hn => proj1 (Hkeys n) Hn) fi s1 s H Hr) Hst).
+  intros s Hr Hst. exact (H s (ReachI_of_Reach fi s1 s Hr) Hst).
 Qed.
